@@ -819,6 +819,11 @@ func (gb *GroupByBuckets) updateEValFromRunningBuckets(mInfo *structs.MeasureAgg
 					return
 				}
 
+				// divide by the number of records that had a numeric value (the sum cell keeps it), as stats does
+				if numCount := runningStats[sumIdx].numCount; numCount > 0 {
+					countRawVal = float64(numCount)
+				}
+
 				eVal.CVal = sumRawVal / countRawVal
 				eVal.Dtype = sutils.SS_DT_FLOAT
 			} else {
